@@ -1231,8 +1231,12 @@ static void join_adjacent_string_literals(Token *tok) {
 
     if (basety->size > 1)
       for (Token *t = tok1; t->kind == TK_STR; t = t->next)
-        if (t->ty->base->size == 1)
-          *t = *tokenize_string_literal(t, basety);
+        if (t->ty->base->size == 1) {
+          // Convert in place, keeping the token's position and flags.
+          Token *conv = tokenize_string_literal(t, basety);
+          t->ty = conv->ty;
+          t->str = conv->str;
+        }
 
     while (tok1->kind == TK_STR)
       tok1 = tok1->next;
